@@ -68,7 +68,7 @@ Definition g_secant (effective_gain xcent gavg_cent xlow gavg_low xhigh gavg_hig
   let slope1 := ((gavg_low - gavg_cent) / (xlow - xcent)) in
   let slope2 := ((gavg_cent - gavg_high) / (xcent - xhigh)) in
   if ((nabs (effective_gain - gavg_cent)) <=? (dec 1 (-11))) then xcent
-  else if (effective_gain <? gavg_cent) then (xcent + ((gavg_cent - effective_gain) / slope1))
+  else if (effective_gain <? gavg_cent) then (xcent - ((gavg_cent - effective_gain) / slope1))
   else (xcent + (((- gavg_cent) + effective_gain) / slope2)).
 
 (* gnpy/tools/json_io.py: _update_dual_stage *)
